@@ -36,6 +36,7 @@ pub struct SnapState {
     /// streams whose END_STREAM h2 has processed (logged once, for C07's "complete message received")
     pub recv_es_logged: std::collections::BTreeSet<u32>,
     pub closed_clean_logged: std::collections::BTreeSet<u32>,
+    pub remote_reset_logged: std::collections::BTreeSet<u32>,
     /// C18: reference bounds derived from the configuration (flood family only)
     pub c18: Option<C18Bounds>,
     pub max_unheld: usize,
@@ -374,6 +375,10 @@ impl SnapHook {
             }
             if x.state.starts_with("Closed(EndStream") && st.closed_clean_logged.insert(x.id) {
                 crate::sim::log(0, crate::trace::EvK::SnapFact { side, what: "closed_end_stream", v: x.id as i64 });
+            }
+            if x.state.contains("Reset(") && x.state.contains(", Remote)") && st.remote_reset_logged.insert(x.id) {
+                // h2 itself has processed the peer's RST_STREAM (C17: from now on every handle reports it)
+                crate::sim::log(0, crate::trace::EvK::SnapFact { side, what: "remote_reset_processed", v: x.id as i64 });
             }
             // keep only the variant shape for state-coverage accounting
             let shape: String = x.state.chars().take_while(|c| *c != '(' && *c != '{').collect::<String>().trim().to_string();
